@@ -579,9 +579,11 @@ pub fn mutate(rng: &mut Rng, s: &str, md: bool, donor: &str) -> (String, Vec<&'s
 
 // ---------------------------------------------------------------------------------- generator
 
-/// Generator of small programs that are *deliberately* often ill-typed / ill-scoped: wrong types,
-/// undefined names, duplicate definitions, recursion, wrong arity, finish-only statements outside
-/// finish, pure-only statements inside finish, misplaced publish/recall/return, cyclic structs.
+/// Generator of small programs. With `wrong == 0` it is lightly type-directed (so a good share
+/// compiles and reaches lowering); otherwise every choice is *deliberately* broken with that
+/// probability: wrong types, undefined names, duplicate definitions, recursion, wrong arity,
+/// finish-only statements outside finish, pure-only statements inside finish, misplaced
+/// publish/recall/return, cyclic structs, missing command blocks.
 pub struct ProgGen<'a> {
     rng: &'a mut Rng,
     structs: Vec<(String, Vec<(String, String)>)>,
@@ -589,11 +591,15 @@ pub struct ProgGen<'a> {
     facts: Vec<(String, Vec<(String, String)>, Vec<(String, String)>)>,
     effects: Vec<String>,
     commands: Vec<String>,
-    functions: Vec<(String, usize)>,
-    finish_functions: Vec<(String, usize)>,
-    actions: Vec<(String, usize)>,
-    globals: Vec<String>,
-    locals: Vec<String>,
+    /// name, parameter types, return type
+    functions: Vec<(String, Vec<String>, String)>,
+    finish_functions: Vec<(String, Vec<String>)>,
+    actions: Vec<(String, Vec<String>)>,
+    globals: Vec<(String, String)>,
+    locals: Vec<(String, String)>,
+    cur_ret: Option<String>,
+    /// inside a finish block / finish function only simple expressions are allowed
+    in_finish: bool,
     /// probability (percent) of deliberately breaking a choice
     pub wrong: u64,
     pub tags: Vec<&'static str>,
@@ -603,7 +609,7 @@ const BASE_TYPES: &[&str] = &["int", "bool", "string", "bytes", "id"];
 
 impl<'a> ProgGen<'a> {
     pub fn new(rng: &'a mut Rng) -> Self {
-        let wrong = *rng.pick(&[0u64, 3, 10, 25]);
+        let wrong = *rng.pick(&[0u64, 0, 3, 10, 25]);
         Self {
             rng,
             structs: vec![],
@@ -616,6 +622,8 @@ impl<'a> ProgGen<'a> {
             actions: vec![],
             globals: vec![],
             locals: vec![],
+            cur_ret: None,
+            in_finish: false,
             wrong,
             tags: vec![],
         }
@@ -638,34 +646,217 @@ impl<'a> ProgGen<'a> {
         match k {
             0..=4 => (ps(self.rng, BASE_TYPES)).to_string(),
             5 => {
-                if self.structs.is_empty() || self.bad() {
+                if self.bad() {
                     format!("struct {}", ps(self.rng, &["S0", "S1", "S9", "C0", "Eff0", "F0"]))
+                } else if self.structs.is_empty() {
+                    "int".into()
                 } else {
                     format!("struct {}", self.rng.pick(&self.structs).0.clone())
                 }
             }
             6 => {
-                if self.enums.is_empty() || self.bad() {
+                if self.bad() {
                     format!("enum {}", ps(self.rng, &["E0", "E9", "S0"]))
+                } else if self.enums.is_empty() {
+                    "string".into()
                 } else {
                     format!("enum {}", self.rng.pick(&self.enums).0.clone())
                 }
             }
             7 => format!("option[{}]", self.ty(depth + 1)),
-            8 => format!("optional {}", self.ty(depth + 1)),
-            9 => "unit".into(),
+            8 if self.bad() => format!("optional {}", self.ty(depth + 1)),
+            8 => "int".into(),
+            9 if self.bad() => "unit".into(),
+            9 => "bool".into(),
             _ => format!("result[{}, {}]", self.ty(depth + 1), self.ty(depth + 1)),
         }
     }
 
+    /// Types a `let` can be given a value of without outside help.
+    fn let_ty(&mut self) -> String {
+        match self.rng.below(8) {
+            0 | 1 | 2 => "int".into(),
+            3 | 4 => "bool".into(),
+            5 => "string".into(),
+            6 if !self.enums.is_empty() => format!("enum {}", self.rng.pick(&self.enums).0.clone()),
+            6 => "option[int]".into(),
+            _ if !self.structs.is_empty() => format!("struct {}", self.rng.pick(&self.structs).0.clone()),
+            _ => "option[bool]".into(),
+        }
+    }
+
+    /// `if x {` would parse `x {` as a struct literal: parenthesise bare names.
+    fn cond(&mut self, ty: &str, depth: u32) -> String {
+        let c = self.typed(ty, depth);
+        if c.chars().all(|ch| ch.is_ascii_alphanumeric() || ch == '_') && !self.bad() { format!("({c})") } else { c }
+    }
+
+    fn push_local(&mut self, name: &str, ty: &str) {
+        self.locals.push((name.to_string(), ty.to_string()));
+    }
+
     fn name_in_scope(&mut self) -> String {
-        let mut pool: Vec<String> = self.locals.clone();
-        pool.extend(self.globals.iter().cloned());
+        let mut pool: Vec<String> = self.locals.iter().map(|l| l.0.clone()).collect();
+        pool.extend(self.globals.iter().map(|g| g.0.clone()));
         if pool.is_empty() || self.bad() {
             self.tags.push("maybe-undefined-name");
             return (ps(self.rng, &["x", "y", "zz", "this", "envelope", "g0", "undefined_name"])).to_string();
         }
         self.rng.pick(&pool).clone()
+    }
+
+    fn local_of(&mut self, ty: &str) -> Option<String> {
+        let pool: Vec<String> = self
+            .locals
+            .iter()
+            .chain(self.globals.iter())
+            .filter(|l| l.1 == ty)
+            .map(|l| l.0.clone())
+            .collect();
+        if pool.is_empty() { None } else { Some(self.rng.pick(&pool).clone()) }
+    }
+
+    /// An expression of type `want` (best effort; falls back to the untyped generator).
+    pub fn typed(&mut self, want: &str, depth: u32) -> String {
+        if self.bad() {
+            self.tags.push("type-broken");
+            return self.expr(depth);
+        }
+        if depth < 3
+            && self.rng.chance(1, 3)
+            && let Some(l) = self.local_of(want)
+        {
+            return l;
+        }
+        let deep = depth >= 3 || self.in_finish;
+        match want {
+            "int" => match if deep { self.rng.below(2) } else { self.rng.below(12) } {
+                0 | 1 | 2 => self.rng.range(0, 20).to_string(),
+                3 => self.local_of("int").unwrap_or_else(|| "7".into()),
+                4 => format!("{}({}, {})", ps(self.rng, &["saturating_add", "saturating_sub"]), self.typed("int", depth + 1), self.typed("int", depth + 1)),
+                5 => format!("if {} {{ : {} }} else {{ : {} }}", self.cond("bool", depth + 1), self.typed("int", depth + 1), self.typed("int", depth + 1)),
+                6 => format!("match {} {{ 0 => {} 1 | 2 => {} _ => {} }}", self.cond("int", depth + 1), self.typed("int", depth + 1), self.typed("int", depth + 1), self.typed("int", depth + 1)),
+                7 => {
+                    let saved = self.locals.len();
+                    let e = self.typed("int", depth + 1);
+                    let name = format!("t{}", self.locals.len());
+                    self.push_local(&name, "int");
+                    let r = self.typed("int", depth + 1);
+                    self.locals.truncate(saved);
+                    format!("{{ let {name} = {e} : {r} }}")
+                }
+                8 => self.call_returning("int", depth).unwrap_or_else(|| "3".into()),
+                9 => format!("({}({}, {}) or 0)", ps(self.rng, &["add", "sub"]), self.typed("int", depth + 1), self.typed("int", depth + 1)),
+                10 => format!("({} or {})", self.typed("option[int]", depth + 1), self.typed("int", depth + 1)),
+                _ => match self.field_of("int") {
+                    Some(e) => e,
+                    None => "11".into(),
+                },
+            },
+            "bool" => match if deep { self.rng.below(2) } else { self.rng.below(11) } {
+                0 | 1 => (ps(self.rng, &["true", "false"])).to_string(),
+                2 | 3 => format!("({} {} {})", self.typed("int", depth + 1), ps(self.rng, &[">", "<", ">=", "<=", "==", "!="]), self.typed("int", depth + 1)),
+                4 => format!("!{}", self.typed("bool", depth + 1)),
+                5 => format!("({} {} {})", self.typed("bool", depth + 1), ps(self.rng, &["&&", "||", "=="]), self.typed("bool", depth + 1)),
+                6 => format!("({} is {})", self.typed("option[int]", depth + 1), ps(self.rng, &["Some", "None"])),
+                7 if !self.facts.is_empty() => format!("exists {}", self.fact_literal(depth, true)),
+                8 if !self.facts.is_empty() => format!("{} {} {}", ps(self.rng, &["at_least", "at_most", "exactly"]), self.rng.range(1, 3), self.fact_literal(depth, true)),
+                9 => format!("({} == {})", self.typed("string", depth + 1), self.typed("string", depth + 1)),
+                _ => self.call_returning("bool", depth).unwrap_or_else(|| "true".into()),
+            },
+            "string" => match self.rng.below(3) {
+                0 => self.local_of("string").unwrap_or_else(|| "\"s\"".into()),
+                _ => (ps(self.rng, &["\"a\"", "\"\"", "\"x\\n\"", "\"\\x41\"", "\"long string literal\""])).to_string(),
+            },
+            "unit" => "Unit".into(),
+            _ if want.starts_with("struct ") => {
+                let name = &want[7..];
+                match self.structs.iter().find(|s| s.0 == name).cloned() {
+                    Some((n, fields)) if depth < 3 => {
+                        let parts: Vec<String> = fields.iter().map(|(f, t)| format!("{f}: {}", self.typed(t, depth + 1))).collect();
+                        format!("{n} {{ {} }}", parts.join(", "))
+                    }
+                    _ => self.local_of(want).unwrap_or_else(|| self.expr(3)),
+                }
+            }
+            _ if want.starts_with("enum ") => {
+                let name = &want[5..];
+                match self.enums.iter().find(|e| e.0 == name).cloned() {
+                    Some((n, vs)) => format!("{n}::{}", self.rng.pick(&vs)),
+                    None => self.expr(3),
+                }
+            }
+            _ if want.starts_with("option[") && want.ends_with(']') => {
+                let inner = want[7..want.len() - 1].to_string();
+                if self.rng.chance(1, 3) { "None".into() } else { format!("Some({})", self.typed(&inner, depth + 1)) }
+            }
+            _ if want.starts_with("optional ") => {
+                let inner = want[9..].to_string();
+                if self.rng.chance(1, 3) { "None".into() } else { format!("Some({})", self.typed(&inner, depth + 1)) }
+            }
+            _ if want.starts_with("result[") && want.ends_with(']') => {
+                // split at the top-level comma
+                let body = &want[7..want.len() - 1];
+                let mut lvl = 0;
+                let mut cut = None;
+                for (i, c) in body.char_indices() {
+                    match c {
+                        '[' => lvl += 1,
+                        ']' => lvl -= 1,
+                        ',' if lvl == 0 => {
+                            cut = Some(i);
+                            break;
+                        }
+                        _ => {}
+                    }
+                }
+                match cut {
+                    Some(i) => {
+                        let (ok, err) = (body[..i].trim().to_string(), body[i + 1..].trim().to_string());
+                        if self.rng.bool() { format!("Ok({})", self.typed(&ok, depth + 1)) } else { format!("Err({})", self.typed(&err, depth + 1)) }
+                    }
+                    None => self.expr(depth),
+                }
+            }
+            // id, bytes: no literals; only names can provide them
+            _ => match self.local_of(want) {
+                Some(l) => l,
+                None => {
+                    self.tags.push("no-value-of-type");
+                    self.expr(3)
+                }
+            },
+        }
+    }
+
+    /// `x.f` for a struct-typed name with a field of type `ty`.
+    fn field_of(&mut self, ty: &str) -> Option<String> {
+        let mut cands = vec![];
+        for (name, lt) in self.locals.iter().chain(self.globals.iter()) {
+            if let Some(sn) = lt.strip_prefix("struct ")
+                && let Some((_, fields)) = self.structs.iter().find(|s| s.0 == sn)
+            {
+                for (f, t) in fields {
+                    if t == ty {
+                        cands.push(format!("{name}.{f}"));
+                    }
+                }
+            }
+        }
+        if cands.is_empty() { None } else { Some(self.rng.pick(&cands).clone()) }
+    }
+
+    fn call_returning(&mut self, ty: &str, depth: u32) -> Option<String> {
+        let cands: Vec<(String, Vec<String>, String)> = self.functions.iter().filter(|f| f.2 == ty).cloned().collect();
+        if cands.is_empty() {
+            if ty == "bool" && self.rng.bool() {
+                return Some(format!("test::doit({})", self.typed("int", depth + 1)));
+            }
+            return None;
+        }
+        let (name, params, _) = self.rng.pick(&cands).clone();
+        let args: Vec<String> = params.iter().map(|t| self.typed(t, depth + 1)).collect();
+        Some(format!("{name}({})", args.join(", ")))
     }
 
     fn fact_literal(&mut self, depth: u32, allow_bind: bool) -> String {
@@ -675,25 +866,32 @@ impl<'a> ProgGen<'a> {
         }
         let (name, keys, vals) = self.rng.pick(&self.facts).clone();
         let mut s = format!("{name}[");
-        for (i, (k, _)) in keys.iter().enumerate() {
+        // binds must trail: once a key is bound all following ones are
+        let mut binding = false;
+        let mut first = true;
+        for (k, t) in keys.iter() {
             if self.bad() {
                 self.tags.push("fact-key-dropped");
                 continue;
             }
-            if i > 0 {
+            if !first {
                 s.push_str(", ");
             }
-            let v = if allow_bind && self.rng.chance(1, 3) { "?".to_string() } else { self.expr(depth + 1) };
+            first = false;
+            if allow_bind && !binding && self.rng.chance(1, 4) {
+                binding = true;
+            }
+            let v = if binding { "?".to_string() } else { self.typed(t, depth + 1) };
             s.push_str(&format!("{k}: {v}"));
         }
         s.push(']');
-        if self.rng.chance(2, 3) {
+        if !allow_bind || self.rng.chance(1, 2) {
             s.push_str("=>{");
-            for (i, (k, _)) in vals.iter().enumerate() {
+            for (i, (k, t)) in vals.iter().enumerate() {
                 if i > 0 {
                     s.push_str(", ");
                 }
-                let v = if allow_bind && self.rng.chance(1, 3) { "?".to_string() } else { self.expr(depth + 1) };
+                let v = if allow_bind && self.rng.chance(1, 2) { "?".to_string() } else { self.typed(t, depth + 1) };
                 s.push_str(&format!("{k}: {v}"));
             }
             s.push('}');
@@ -708,15 +906,15 @@ impl<'a> ProgGen<'a> {
         }
         let (name, fields) = self.rng.pick(&self.structs).clone();
         let mut parts = vec![];
-        for (f, _) in &fields {
+        for (f, t) in &fields {
             if self.bad() {
                 self.tags.push("struct-field-dropped");
                 continue;
             }
-            let e = self.expr(depth + 1);
+            let e = self.typed(t, depth + 1);
             parts.push(format!("{f}: {e}"));
         }
-        if self.rng.chance(1, 6) {
+        if self.bad() {
             parts.push(format!("...{}", self.name_in_scope()));
         }
         if self.bad() {
@@ -727,21 +925,21 @@ impl<'a> ProgGen<'a> {
     }
 
     fn call(&mut self, depth: u32) -> String {
-        let (name, arity) = if self.functions.is_empty() || self.bad() {
-            ((ps(self.rng, &["f0", "f9", "a0", "ff0", "saturating_add", "add", "unwrap"])).to_string(), self.rng.usize(3))
+        let (name, params) = if self.functions.is_empty() || self.bad() {
+            ((ps(self.rng, &["f0", "f9", "a0", "ff0", "saturating_add", "add", "unwrap"])).to_string(), vec!["int".to_string(); self.rng.usize(3)])
         } else {
-            self.rng.pick(&self.functions).clone()
+            let f = self.rng.pick(&self.functions).clone();
+            (f.0, f.1)
         };
-        let n = if self.bad() {
+        let mut args: Vec<String> = params.iter().map(|t| self.typed(t, depth + 1)).collect();
+        if self.bad() {
             self.tags.push("wrong-arity");
-            arity + 1
-        } else {
-            arity
-        };
-        let args: Vec<String> = (0..n).map(|_| self.expr(depth + 1)).collect();
+            args.push(self.expr(depth + 1));
+        }
         format!("{name}({})", args.join(", "))
     }
 
+    /// An expression of no particular type.
     pub fn expr(&mut self, depth: u32) -> String {
         let k = if depth >= 3 { self.rng.below(9) } else { self.rng.below(40) };
         match k {
@@ -787,7 +985,7 @@ impl<'a> ProgGen<'a> {
                 let saved = self.locals.len();
                 let name = format!("t{}", self.rng.below(4));
                 let e = self.expr(depth + 1);
-                self.locals.push(name.clone());
+                self.push_local(&name, "?");
                 let r = self.expr(depth + 1);
                 self.locals.truncate(saved);
                 format!("{{ let {name} = {e} : {r} }}")
@@ -801,13 +999,22 @@ impl<'a> ProgGen<'a> {
             29 => format!("{}({})", ps(self.rng, &["unwrap", "check_unwrap", "serialize", "deserialize"]), self.expr(depth + 1)),
             30 => format!("return {}", self.expr(depth + 1)),
             31 => format!("recall {}()", ps(self.rng, &["r0", "r9", "f0"])),
-            32 => self.rng.range(0, 20).to_string(),
+            32 => self.typed("int", depth + 1),
             33 => (ps(self.rng, &["-1", "9223372036854775807", "-9223372036854775808", "99999999999999999999"])).to_string(),
+            34 => self.typed("bool", depth + 1),
             _ => self.name_in_scope(),
         }
     }
 
     fn block(&mut self, depth: u32, n: usize, ctx: &str) -> String {
+        let was = self.in_finish;
+        self.in_finish = ctx == "finish";
+        let r = self.block_inner(depth, n, ctx);
+        self.in_finish = was;
+        r
+    }
+
+    fn block_inner(&mut self, depth: u32, n: usize, ctx: &str) -> String {
         let saved = self.locals.len();
         let mut s = String::from("{\n");
         for _ in 0..n {
@@ -819,47 +1026,98 @@ impl<'a> ProgGen<'a> {
         s
     }
 
+    /// `Name { f: e, ... }` for a declared command / effect.
+    fn named_literal(&mut self, name: &str, depth: u32) -> String {
+        match self.structs.iter().find(|s| s.0 == name).cloned() {
+            Some((n, fields)) => {
+                let parts: Vec<String> = fields.iter().map(|(f, t)| format!("{f}: {}", self.typed(t, depth + 1))).collect();
+                format!("{n} {{ {} }}", parts.join(", "))
+            }
+            None => format!("{name} {{ a: {} }}", self.expr(depth + 1)),
+        }
+    }
+
     pub fn stmt(&mut self, depth: u32, ctx: &str) -> String {
         // ctx: "fn" | "finish" | "action" | "policy" | "recall" | "seal" | "open"
         let in_ctx: &[u64] = match ctx {
             "finish" => &[14, 15, 16, 17, 18],
-            "action" => &[0, 1, 2, 3, 4, 9, 10, 11],
-            "policy" | "recall" => &[0, 1, 2, 3, 4, 5, 12, 13],
-            _ => &[0, 1, 2, 3, 4, 6],
+            "action" => &[0, 1, 2, 3, 4, 9, 9, 10, 11],
+            "policy" | "recall" => &[0, 1, 2, 3, 4],
+            _ => &[0, 1, 2, 3, 4],
         };
-        let k = if self.bad() || depth >= 3 && self.rng.chance(1, 2) {
-            self.rng.below(19)
-        } else {
-            *self.rng.pick(in_ctx)
-        };
+        let mut k = if self.bad() { self.rng.below(19) } else { *self.rng.pick(in_ctx) };
+        if !self.bad() {
+            // only statements whose ingredients exist
+            if matches!(k, 14 | 15 | 16) && self.facts.is_empty() {
+                k = 17;
+            }
+            if k == 18 && self.finish_functions.is_empty() {
+                k = 17;
+            }
+            if k == 17 && self.effects.is_empty() {
+                return String::new();
+            }
+            if k == 11 && self.facts.is_empty() {
+                k = 0;
+            }
+            if k == 10 && self.actions.is_empty() {
+                k = 1;
+            }
+            if k == 9 && self.commands.is_empty() {
+                k = 0;
+            }
+        }
         let inner = if depth >= 3 { 0 } else { self.rng.usize(3) };
         match k {
             0 | 1 => {
-                let name = if self.bad() {
+                let (name, ty) = if self.bad() {
                     self.tags.push("shadow-or-dup-let");
-                    self.name_in_scope()
+                    (self.name_in_scope(), "?".to_string())
                 } else {
-                    format!("v{}", self.locals.len())
+                    (format!("v{}", self.locals.len()), self.let_ty())
                 };
-                let e = self.expr(depth);
-                self.locals.push(name.clone());
+                let e = self.typed(&ty, depth);
+                self.push_local(&name, &ty);
                 format!("let {name} = {e}")
             }
-            2 => format!("check {} else {}", self.expr(depth), ps(self.rng, &["return 0", "todo()", "recall r0()", "return Err(1)", "test_fail(\"c\")", "1"])),
+            2 => {
+                let c = self.typed("bool", depth);
+                let els = match ctx {
+                    "policy" if !self.bad() => "recall r0()".to_string(),
+                    "fn" if !self.bad() => match self.cur_ret.clone() {
+                        Some(rt) => format!("return {}", self.typed(&rt, depth + 1)),
+                        None => "todo()".into(),
+                    },
+                    _ if !self.bad() => (ps(self.rng, &["todo()", "test_fail(\"c\")"])).to_string(),
+                    _ => (ps(self.rng, &["todo()", "test_fail(\"c\")", "return 0", "recall r0()", "return Err(1)", "1"])).to_string(),
+                };
+                format!("check {c} else {els}")
+            }
             3 => {
-                let c = self.expr(depth);
+                let c = self.cond("bool", depth);
                 let a = self.block(depth, inner, ctx);
                 match self.rng.below(3) {
                     0 => format!("if {c} {a}"),
                     1 => format!("if {c} {a} else {}", self.block(depth, inner, ctx)),
-                    _ => format!("if {c} {a} else if {} {} else {}", self.expr(depth), self.block(depth, 0, ctx), self.block(depth, inner, ctx)),
+                    _ => format!("if {c} {a} else if {} {} else {}", self.cond("bool", depth), self.block(depth, 0, ctx), self.block(depth, inner, ctx)),
                 }
             }
             4 => {
-                let scrut = self.expr(depth);
+                let scrut = self.cond("int", depth);
                 let mut arms = String::new();
+                let mut used = vec![];
                 for _ in 0..self.rng.urange(1, 3) {
-                    arms.push_str(&format!("{} => {}\n", self.expr(3), self.block(depth, inner, ctx)));
+                    let p = if self.bad() {
+                        self.expr(3)
+                    } else {
+                        let mut v = self.rng.range(0, 9);
+                        while used.contains(&v) {
+                            v += 10;
+                        }
+                        used.push(v);
+                        v.to_string()
+                    };
+                    arms.push_str(&format!("{p} => {}\n", self.block(depth, inner, ctx)));
                 }
                 if !self.bad() {
                     arms.push_str(&format!("_ => {}\n", self.block(depth, inner, ctx)));
@@ -867,77 +1125,106 @@ impl<'a> ProgGen<'a> {
                 format!("match {scrut} {{\n{arms}}}")
             }
             5 => format!("finish {}", { let n = self.rng.usize(4); self.block(depth, n, "finish") }),
-            6 => format!("return {}", self.expr(depth)),
-            7 => format!("debug_assert({})", self.expr(depth)),
+            6 | 13 => format!("return {}", self.expr(depth)),
+            7 => format!("debug_assert({})", self.typed("bool", depth)),
             8 => self.call(depth),
-            9 => format!("publish {}", if self.rng.bool() && !self.commands.is_empty() {
-                let c = self.rng.pick(&self.commands).clone();
-                let e = self.expr(depth + 1);
-                format!("{c} {{ a: {e} }}")
-            } else {
-                self.expr(depth)
-            }),
+            9 => {
+                let what = if !self.commands.is_empty() && !self.bad() {
+                    let c = self.rng.pick(&self.commands).clone();
+                    self.named_literal(&c, depth)
+                } else {
+                    self.expr(depth)
+                };
+                format!("publish {what}")
+            }
             10 => {
-                let (name, arity) = if self.actions.is_empty() || self.bad() {
-                    ("a9".to_string(), self.rng.usize(2))
+                let (name, params) = if self.actions.is_empty() || self.bad() {
+                    ("a9".to_string(), vec!["int".to_string(); self.rng.usize(2)])
                 } else {
                     self.rng.pick(&self.actions).clone()
                 };
-                let args: Vec<String> = (0..arity).map(|_| self.expr(depth + 1)).collect();
+                let args: Vec<String> = params.iter().map(|t| self.typed(t, depth + 1)).collect();
                 format!("action {name}({})", args.join(", "))
             }
             11 => {
                 let saved = self.locals.len();
                 let f = self.fact_literal(depth, true);
-                self.locals.push("m".into());
+                let mv = if self.bad() { "m".to_string() } else { format!("m{}", self.locals.len()) };
+                self.push_local(&mv, "?");
                 let b = self.block(depth, inner, ctx);
                 self.locals.truncate(saved);
-                format!("map {f} as m {b}")
+                format!("map {f} as {mv} {b}")
             }
             12 => format!("recall {}({})", ps(self.rng, &["r0", "r1", "r9"]), if self.rng.bool() { String::new() } else { self.expr(depth + 1) }),
-            13 => format!("return {}", self.expr(depth)),
             14 => format!("create {}", { let b = self.bad(); self.fact_literal(depth, b) }),
             15 => {
-                let f = { let b = self.bad(); self.fact_literal(depth, b) };
-                let e = self.expr(depth + 1);
-                format!("update {f} to {{v: {e}}}")
+                if self.facts.is_empty() || self.bad() {
+                    let f = { let b = self.bad(); self.fact_literal(depth, b) };
+                    let e = self.expr(depth + 1);
+                    format!("update {f} to {{v: {e}}}")
+                } else {
+                    let (name, keys, vals) = self.rng.pick(&self.facts).clone();
+                    let kk: Vec<String> = keys.iter().map(|(k, t)| format!("{k}: {}", self.typed(t, depth + 1))).collect();
+                    let vv: Vec<String> = vals.iter().map(|(k, t)| format!("{k}: {}", self.typed(t, depth + 1))).collect();
+                    format!("update {name}[{}] to {{{}}}", kk.join(", "), vv.join(", "))
+                }
             }
-            16 => format!("delete {}", { let b = self.bad(); self.fact_literal(depth, b) }),
-            17 => format!("emit {}", if self.rng.bool() && !self.effects.is_empty() {
-                let c = self.rng.pick(&self.effects).clone();
-                let e = self.expr(depth + 1);
-                format!("{c} {{ a: {e} }}")
-            } else {
-                self.expr(depth)
-            }),
+            16 => {
+                if self.facts.is_empty() || self.bad() {
+                    format!("delete {}", { let b = self.bad(); self.fact_literal(depth, b) })
+                } else {
+                    let (name, keys, _) = self.rng.pick(&self.facts).clone();
+                    let kk: Vec<String> = keys.iter().map(|(k, t)| format!("{k}: {}", self.typed(t, depth + 1))).collect();
+                    format!("delete {name}[{}]", kk.join(", "))
+                }
+            }
+            17 => {
+                let what = if !self.effects.is_empty() && !self.bad() {
+                    let c = self.rng.pick(&self.effects).clone();
+                    self.named_literal(&c, depth)
+                } else {
+                    self.expr(depth)
+                };
+                format!("emit {what}")
+            }
             _ => {
-                let (name, arity) = if self.finish_functions.is_empty() || self.bad() {
-                    ("ff9".to_string(), 0)
+                let (name, params) = if self.finish_functions.is_empty() || self.bad() {
+                    if self.effects.is_empty() {
+                        ("ff9".to_string(), vec![])
+                    } else {
+                        // nothing to call: emit instead
+                        let c = self.rng.pick(&self.effects).clone();
+                        return format!("emit {}", self.named_literal(&c, depth));
+                    }
                 } else {
                     self.rng.pick(&self.finish_functions).clone()
                 };
-                let args: Vec<String> = (0..arity).map(|_| self.expr(depth + 1)).collect();
+                let args: Vec<String> = params.iter().map(|t| self.typed(t, depth + 1)).collect();
                 format!("{name}({})", args.join(", "))
             }
         }
     }
 
-    fn params(&mut self) -> (String, usize) {
+    fn params(&mut self) -> (String, Vec<String>) {
         let n = self.rng.usize(3);
         let mut parts = vec![];
+        let mut tys = vec![];
         for i in 0..n {
             let name = if self.bad() { "p0".to_string() } else { format!("p{i}") };
             let t = self.ty(1);
-            self.locals.push(name.clone());
+            self.push_local(&name, &t);
             parts.push(format!("{name} {t}"));
+            tys.push(t);
         }
-        (parts.join(", "), n)
+        (parts.join(", "), tys)
     }
 
     pub fn program(mut self) -> (String, Vec<&'static str>) {
         let mut out = String::new();
         if self.rng.chance(1, 3) {
-            out.push_str(&format!("use {}\n", ps(self.rng, &["test", "print", "nomod", "envelope", "test\nuse test"])));
+            out.push_str(&format!("use {}\n", if self.bad() { ps(self.rng, &["nomod", "envelope", "test\nuse test"]) } else { "test" }));
+        } else if self.wrong == 0 {
+            out.push_str("use test\n");
         }
         for i in 0..self.rng.usize(3) {
             let name = self.fresh("E", i);
@@ -960,7 +1247,7 @@ impl<'a> ProgGen<'a> {
                 parts.push(format!("{f} {t}"));
                 fields.push((f, t));
             }
-            if self.rng.chance(1, 8) {
+            if self.bad() {
                 parts.push(format!("+{}", ps(self.rng, &["S0", "S1", "S9"])));
             }
             out.push_str(&format!("struct {name} {{ {} }}\n", parts.join(", ")));
@@ -968,101 +1255,133 @@ impl<'a> ProgGen<'a> {
         }
         for i in 0..self.rng.usize(3) {
             let name = self.fresh("F", i);
-            let keys: Vec<(String, String)> = (0..self.rng.usize(3)).map(|j| (["k", "j", "i"][j].to_string(), if self.bad() { self.ty(0) } else { (ps(self.rng, &["int", "string", "id", "bool"])).to_string() })).collect();
-            let vals: Vec<(String, String)> = (0..self.rng.usize(3)).map(|j| (if self.bad() { "k".to_string() } else { ["v", "w", "u"][j].to_string() }, self.ty(0))).collect();
+            let keys: Vec<(String, String)> = (0..self.rng.usize(3)).map(|j| (["k", "j", "i"][j].to_string(), if self.bad() { self.ty(0) } else { (ps(self.rng, &["int", "string", "bool", "int"])).to_string() })).collect();
+            let vals: Vec<(String, String)> = (0..self.rng.usize(3)).map(|j| (if self.bad() { "k".to_string() } else { ["v", "w", "u"][j].to_string() }, if self.bad() { self.ty(0) } else { (ps(self.rng, &["int", "string", "bool", "option[int]"])).to_string() })).collect();
             let kk: Vec<String> = keys.iter().map(|(a, b)| format!("{a} {b}")).collect();
             let vv: Vec<String> = vals.iter().map(|(a, b)| format!("{a} {b}")).collect();
             out.push_str(&format!("{}fact {name}[{}]=>{{{}}}\n", if self.rng.chance(1, 5) { "immutable " } else { "" }, kk.join(", "), vv.join(", ")));
             self.facts.push((name, keys, vals));
         }
-        for i in 0..self.rng.usize(2) {
+        for i in 0..self.rng.usize(3) {
             let name = self.fresh("Eff", i);
-            let t = self.ty(0);
+            let t = if self.bad() { self.ty(0) } else { (ps(self.rng, &["int", "string", "bool", "option[int]"])).to_string() };
             out.push_str(&format!("effect {name} {{ a {t}{} }}\n", if self.rng.chance(1, 4) { " dynamic" } else { "" }));
             self.effects.push(name.clone());
             self.structs.push((name, vec![("a".into(), t)]));
         }
         for i in 0..self.rng.usize(3) {
-            let e = self.expr(1);
+            let ty = (ps(self.rng, &["int", "bool", "string", "option[int]"])).to_string();
+            // global lets take constant expressions only
+            let e = if self.bad() {
+                self.expr(1)
+            } else {
+                match ty.as_str() {
+                    "int" => self.rng.range(0, 99).to_string(),
+                    "bool" => (ps(self.rng, &["true", "false"])).to_string(),
+                    "string" => "\"g\"".to_string(),
+                    _ => (ps(self.rng, &["None", "Some(4)"])).to_string(),
+                }
+            };
             let name = self.fresh("g", i);
             out.push_str(&format!("let {name} = {e}\n"));
-            self.globals.push(name);
+            // `None` alone has no complete type; do not hand it out as option[int]
+            let gty = if e == "None" { "?".to_string() } else { ty };
+            self.globals.push((name, gty));
         }
         // function signatures first so calls (including recursive and forward ones) resolve
         let nf = self.rng.usize(4);
         let mut sigs = vec![];
         for i in 0..nf {
             let name = self.fresh("f", i);
-            let arity = self.rng.usize(3);
-            self.functions.push((name.clone(), arity));
-            sigs.push(name);
+            self.locals.clear();
+            let (p, tys) = self.params();
+            let rt = if self.bad() { self.ty(0) } else { (ps(self.rng, &["int", "bool", "string", "int"])).to_string() };
+            sigs.push((name.clone(), p, tys.clone(), rt.clone(), self.locals.clone()));
+            // a function is callable (without recursion) only by functions declared after it,
+            // unless recursion is wanted
+            if self.bad() {
+                self.tags.push("maybe-recursive");
+                self.functions.push((name, tys, rt));
+            }
         }
         for i in 0..self.rng.usize(2) {
             let name = self.fresh("ff", i);
             self.locals.clear();
-            let (p, n) = self.params();
+            self.cur_ret = None;
+            let (p, tys) = self.params();
             let body = { let n = self.rng.usize(3); self.block(0, n, "finish") };
             out.push_str(&format!("finish function {name}({p}) {body}\n"));
-            self.finish_functions.push((name, n));
+            self.finish_functions.push((name, tys));
         }
-        for name in sigs {
-            self.locals.clear();
-            let (p, _) = self.params();
-            let rt = self.ty(0);
+        for (name, p, tys, rt, locals) in sigs {
+            self.locals = locals;
+            self.cur_ret = Some(rt.clone());
             let mut body = { let n = self.rng.usize(3); self.block(0, n, "fn") };
             if !self.bad() {
                 body.pop();
-                body.push_str(&format!("return {}\n}}", self.expr(1)));
+                body.push_str(&format!("return {}\n}}", self.typed(&rt, 1)));
             }
             out.push_str(&format!("function {name}({p}) {rt} {body}\n"));
+            if !self.functions.iter().any(|f| f.0 == name) {
+                self.functions.push((name, tys, rt));
+            }
         }
+        self.cur_ret = None;
         for i in 0..self.rng.usize(3) {
             let name = self.fresh("C", i);
             self.locals.clear();
-            self.locals.push("this".into());
-            let t = self.ty(0);
-            let mut c = format!("{}command {name} {{\n", if self.rng.chance(1, 6) { "ephemeral " } else { "" });
+            let t = if self.bad() { self.ty(0) } else { (ps(self.rng, &["int", "string", "bool", "option[int]"])).to_string() };
+            self.push_local("this", &format!("struct {name}"));
+            // make `this.a` available to the typed generator
+            self.structs.push((name.clone(), vec![("a".into(), t.clone())]));
+            let mut c = format!("{}command {name} {{\n", if self.bad() { "ephemeral " } else { "" });
             if self.rng.chance(1, 4) {
-                c.push_str(&format!("attributes {{ prio: {} }}\n", self.expr(2)));
+                c.push_str(&format!("attributes {{ prio: {} }}\n", if self.bad() { self.expr(2) } else { self.rng.range(0, 9).to_string() }));
             }
             if !self.bad() {
                 c.push_str(&format!("fields {{ a {t} }}\n"));
             }
             if !self.bad() {
-                c.push_str(&format!("seal {}\n", if self.rng.chance(3, 4) { "{ return todo() }".to_string() } else { self.block(0, 2, "seal") }));
+                c.push_str(&format!("seal {}\n", if !self.bad() { "{ return todo() }".to_string() } else { self.block(0, 2, "seal") }));
             }
             if !self.bad() {
-                c.push_str(&format!("open {}\n", if self.rng.chance(3, 4) { "{ return todo() }".to_string() } else { self.block(0, 2, "open") }));
+                c.push_str(&format!("open {}\n", if !self.bad() { "{ return todo() }".to_string() } else { self.block(0, 2, "open") }));
             }
-            self.locals.push("envelope".into());
+            self.push_local("envelope", "?");
             let mut pol = { let n = self.rng.usize(3); self.block(0, n, "policy") };
             if !self.bad() {
                 pol.pop();
                 pol.push_str(&format!("finish {}\n}}", { let n = self.rng.usize(3); self.block(1, n, "finish") }));
             }
             c.push_str(&format!("policy {pol}\n"));
-            for r in 0..self.rng.usize(3) {
+            let nrecall = if self.bad() { self.rng.usize(3) } else { 1 };
+            for r in 0..nrecall {
                 let rn = if self.bad() { "r0".to_string() } else { format!("r{r}") };
                 let mut rb = { let n = self.rng.usize(2); self.block(0, n, "recall") };
                 if !self.bad() {
                     rb.pop();
-                    rb.push_str("finish {}\n}");
+                    rb.push_str(&format!("finish {}\n}}", { let n = self.rng.usize(2); self.block(1, n, "finish") }));
                 }
                 c.push_str(&format!("recall {rn}() {rb}\n"));
             }
             c.push_str("}\n");
             out.push_str(&c);
             self.commands.push(name.clone());
-            self.structs.push((name, vec![("a".into(), t)]));
         }
         for i in 0..self.rng.usize(3) {
             let name = self.fresh("a", i);
             self.locals.clear();
-            let (p, n) = self.params();
-            self.actions.push((name.clone(), n));
-            let rt = if self.rng.chance(1, 4) { format!(" result[unit, {}]", self.ty(1)) } else { String::new() };
-            let body = { let n = self.rng.usize(4); self.block(0, n, "action") };
-            out.push_str(&format!("{}action {name}({p}){rt} {body}\n", if self.rng.chance(1, 6) { "ephemeral " } else { "" }));
+            let (p, tys) = self.params();
+            let rt = if self.bad() { format!(" result[unit, {}]", self.ty(1)) } else { String::new() };
+            let mut body = { let n = self.rng.usize(4); self.block(0, n, "action") };
+            if !self.commands.is_empty() && !self.bad() {
+                // every path publishes
+                let c = self.rng.pick(&self.commands).clone();
+                body.pop();
+                body.push_str(&format!("publish {}\n}}", self.named_literal(&c, 1)));
+            }
+            out.push_str(&format!("{}action {name}({p}){rt} {body}\n", if self.bad() { "ephemeral " } else { "" }));
+            self.actions.push((name, tys));
         }
         (out, self.tags)
     }
@@ -1130,4 +1449,54 @@ pub fn gen_random_text(rng: &mut Rng) -> String {
         return w;
     }
     s
+}
+
+// ---------------------------------------------------------------------------------- inputs
+
+/// One front-end input of the C27 workload (also the source of "mutated but accepted" policies
+/// for C28). Deterministic in `(rng, idx, corpus)`.
+pub struct FrontInput {
+    pub text: String,
+    /// "corpus" (unmutated, bounded), "mutated", "generated", "generated-expr", "random"
+    pub class: &'static str,
+    pub detail: String,
+}
+
+pub fn gen_front_input(rng: &mut Rng, idx: u64, corpus: &[Doc]) -> FrontInput {
+    match idx % 10 {
+        0..=5 if !corpus.is_empty() => {
+            let d = rng.pick(corpus);
+            let (mut text, mut md) = bounded(rng, d);
+            if !md && rng.chance(1, 4) && text.len() + 80 < MAX_INPUT {
+                text = wrap_md(&text);
+                md = true;
+            }
+            if rng.chance(1, 10) {
+                return FrontInput { text, class: "corpus", detail: d.path.clone() };
+            }
+            let donor = &rng.pick(corpus).text;
+            let (t, names) = mutate(rng, &text, md, donor);
+            FrontInput { text: t, class: "mutated", detail: format!("{} {:?}", d.path, names) }
+        }
+        6 | 7 | 0..=5 => {
+            if rng.chance(1, 3) {
+                let mut g = ProgGen::new(rng);
+                let mut e = g.expr(0);
+                let tags = g.tags.clone();
+                if e.len() > MAX_INPUT {
+                    e.truncate(MAX_INPUT);
+                }
+                if rng.chance(1, 3) {
+                    let (m, _) = mutate(rng, &e, false, "");
+                    e = m;
+                }
+                FrontInput { text: e, class: "generated-expr", detail: format!("{tags:?}") }
+            } else {
+                let (p, tags) = gen_program(rng);
+                let text = if rng.chance(1, 5) && p.len() + 80 < MAX_INPUT { wrap_md(&p) } else { p };
+                FrontInput { text, class: "generated", detail: format!("{tags:?}") }
+            }
+        }
+        _ => FrontInput { text: gen_random_text(rng), class: "random", detail: String::new() },
+    }
 }
